@@ -105,6 +105,12 @@ CHECKS["C06"] = dict(
     note="Trusts TLC and the worker's fingerprint function; histories are generated by the harness (direction B only: the specification validates, it does not enumerate); arrays with spare capacity and objects sharing pair maps are in the pool on purpose.",
     design="§5 C06")
 
+CHECKS["C19"] = dict(
+    technique="TLA+ spec PanSession (one interpreter, sequence of programs in fresh scopes: observation = FreshObs(p), shared state constant): TLC enumerates sessions; each is run in one real interpreter under three embeddings and the recorded observations / shared-state projections are validated against PanSession by TLC (trace validation), FreshObs measured in newly started interpreters",
+    text="Every (history, probe) pair and two-program histories over a pool of 24 programs (quick: 900 seeded, thorough: all 24^3) under the playground pattern, Str#evalEnv and the real `pangaea test` driver: output, value, error message and stack trace of each program equal those of a newly started interpreter; the projection of built-in objects and of the shared `_` error never changes.",
+    note="Trusts TLC and the worker's projections; web/wasm/executor.go (GOOS=js) cannot be linked natively, its execute pattern is reproduced; HTTP handlers are not driven (loopback not assumed).",
+    design="§5 C19")
+
 NOT_YET = {}
 
 def main():
